@@ -2,5 +2,6 @@ SPECIFICATION TSpec
 CONSTANTS
   AmbiguityFirst = FALSE
   F13_TableErrorTextVaries = FALSE
+  Diagnose = FALSE
 POSTCONDITION Accepted
 CHECK_DEADLOCK FALSE
